@@ -77,7 +77,7 @@ func genC14(t *sim.Tape, i int) *c14Case {
 	c.Referer = []string{"", "http://example.test" + c.Target, "http://example.test/elsewhere", "http://other.test" + c.Target, "http://example.test" + pathOnly + "?page=2", "http://example.test" + pathOnly}[t.Pick("referer", 4, 1, 1, 1, 1, 1)]
 	c.Status = []int{200, 200, 200, 404, 500, 302, 201}[t.Choice(7, "status")]
 	c.CType = []string{"text/html", "text/html; charset=utf-8", "application/xhtml+xml", "application/json", "text/plain", "image/png", "text/css", "application/javascript", "application/octet-stream", ""}[t.Pick("ctype", 4, 3, 1, 2, 2, 1, 1, 1, 1, 1)]
-	c.CDisp = []string{"", "", "inline", "attachment; filename=\"x.html\""}[t.Choice(4, "cdisp")]
+	c.CDisp = []string{"", "", "inline", "attachment; filename=\"x.html\"", "attachment", "attachment; filename=q3 report.html", "attachment;; filename=\"q3.html\"", "attachment; filename=r\xc3\xa9sum\xc3\xa9.html", "ATTACHMENT; filename=x"}[t.Choice(9, "cdisp")]
 	// the body: where <head> sits relative to the first kilobyte and to the write boundaries
 	pre := []int{0, 6, 15, 1010, 1018, 1019, 1023, 1024, 1030, 3000}[t.Choice(10, "headoffset")]
 	var b bytes.Buffer
